@@ -51,12 +51,19 @@ func main() {
 		"below Optional/NotUndef/Type/Variant/Array/Tuple/Hash/Struct/Callable; all ordered pairs of it and both directions against a sample " +
 		"of the lattice pool; non-trivial there: not assignable, expected not Any, actual neither Any nor Unit"
 	pcore.Do(func(c px.Context) {
+		if *aworkerFlag {
+			aworkerMain() // alias.go: the child process that makes the calls on alias graphs
+			return
+		}
 		if cfg.Replay != "" {
 			replay(cfg, res)
 		} else {
 			run(cfg, res)
 		}
 	})
+	if *aworkerFlag {
+		return
+	}
 	res.Write(cfg)
 }
 
@@ -358,6 +365,10 @@ func run(cfg *lib.Config, res *lib.Result) {
 	u := lat.NewUniverse(rng, nRandom, 0)
 	addSpecs(u, extraSpecs())
 	addValues(u, extraValues())
+	if os.Getenv("C19_PART") == "alias" { // development aid: only the alias graphs
+		runAlias(cfg, res, rng, u)
+		return
+	}
 	u.FillInst()
 	u.FillAsg()
 	for _, c := range u.Crashes {
@@ -565,6 +576,9 @@ func run(cfg *lib.Config, res *lib.Result) {
 
 	// ---- the types outside the lattice universe (ext.go)
 	runExt(cfg, res, rng, u)
+
+	// ---- expected types that are graphs of aliases, in a child process under a deadline (alias.go)
+	runAlias(cfg, res, rng, u)
 }
 
 // gAssert prints the observed outcome of an assertion; the classes come from the wording of the detail
@@ -700,9 +714,12 @@ func replayInputs(path string) []interface{} {
 }
 
 func replay(cfg *lib.Config, res *lib.Result) {
-	dcf, tcf, icf, ccf := newDescCases(), newATypeCases(), newAInstCases(), newCallableCases()
+	dcf, tcf, icf, ccf, wcf := newDescCases(), newATypeCases(), newAInstCases(), newCallableCases(), newWalkCases()
 	pats, strs := map[string]bool{}, map[string]bool{}
 	for _, in := range replayInputs(cfg.Replay) {
+		if replayAlias(res, in, wcf) {
+			continue
+		}
 		if replayExt(res, in, ccf, pats, strs) {
 			res.Evaluations++
 			continue
@@ -777,5 +794,8 @@ func replay(cfg *lib.Config, res *lib.Result) {
 			c.cf.Prelude = orc
 			res.CorrFiles = append(res.CorrFiles, c.cf.WriteTo(cfg.Out, c.name))
 		}
+	}
+	if len(wcf.Cases) > 0 {
+		res.CorrFiles = append(res.CorrFiles, wcf.WriteTo(cfg.Out, "cases_walk_replay"))
 	}
 }
